@@ -158,7 +158,10 @@ impl Number {
             Ok(self.powi(exp))
         } else if num == one {
             let exp: Option<i64> = den.as_int();
-            self.root(exp.unwrap() as i32)
+            match exp {
+                Some(exp) if exp <= i32::max_value() as i64 => self.root(exp as i32),
+                _ => Err("Exponent is too small".to_string()),
+            }
         } else if !self.dimless() {
             Err("Exponentiation must result in integer dimensions".to_string())
         } else {
